@@ -227,6 +227,8 @@ def index_invariant(idx, limit=64):
         raise _Broken('idx_map_len', map=len(m), labels=n)
     for i in range(min(n, limit)):
         lab = labels[i]
+        if lab != lab:
+            continue  # NaN / NaT labels: equality-based lookup is undefined (excluded by the statement)
         try:
             pos = m[lab]
         except KeyError:
